@@ -790,3 +790,73 @@ func globalMapLiteral(P *Prog, qualified string) (map[string][]string, bool) {
 	})
 	return out, out != nil
 }
+
+// C17-STATUS: the state the action table is indexed by.  Server.Status / PrevStatus map
+// (replica attached?, volume.meta readable?, Rebuilding, Dirty) to a state; "closed" (and every
+// state read from the metadata file) may only be reported when the file was read successfully,
+// "initial" only when it does not exist: an unreadable volume.meta is state "error", in which no
+// action is offered.
+func ruleC17Status(c *Ctx) {
+	const rule = "C17-STATUS"
+	c.Doc(rule, "replica.Server.Status / PrevStatus: every return of a state constant is cut off by the facts that define the state (initial: volume.meta does not exist; closed / states read from the file: ReadInfo succeeded; open, dirty, rebuilding of an attached replica: s.r != nil and the Rebuilding / Dirty flags)")
+	readOK := isNilAtom("replica.ReadInfo($0.Dir)#1")
+	notExist := "os.IsNotExist(replica.ReadInfo($0.Dir)#1)"
+	for _, name := range []string{fSrv + "Status", fSrv + "PrevStatus"} {
+		fn := c.Anchor(rule, name)
+		if fn == nil {
+			continue
+		}
+		attached := name == fSrv+"Status"
+		by := map[string][]ssa.Instruction{}
+		for _, r := range Returns(fn) {
+			if len(r.Results) < 1 {
+				continue
+			}
+			cst, ok := strip(r.Results[0]).(*ssa.Const)
+			if !ok {
+				c.Bad(rule, FnName(fn)+" | state is a constant", c.P.InstrPos(r), "the state returned is computed: "+NewRenderer(fn).V(r.Results[0]), nil)
+				continue
+			}
+			st := strings.Trim(constString(cst), `"`)
+			by[st] = append(by[st], r)
+		}
+		for st, rets := range by {
+			switch st {
+			case "initial":
+				c.Guard(rule, fn, rets, "return initial", nil, atom("volume.meta does not exist", notExist))
+			case "error":
+				c.OK(rule, FnName(fn)+" | return error", c.P.InstrPos(rets[0]), "no action is offered in state error", false)
+			case "closed":
+				needs := []Need{atom("volume.meta was read", readOK)}
+				if attached {
+					needs = append(needs, atom("no replica attached", isNilAtom("$0.r")))
+				}
+				c.Guard(rule, fn, rets, "return closed", nil, needs...)
+			case "open", "dirty", "rebuilding":
+				info := "replica.ReadInfo($0.Dir)#0"
+				var needs []Need
+				if attached {
+					info = "$0.r.info"
+					needs = append(needs, atom("replica attached", notNilAtom("$0.r")))
+				} else {
+					needs = append(needs, atom("volume.meta was read", readOK))
+				}
+				switch st {
+				case "rebuilding":
+					needs = append(needs, atom("Rebuilding", info+".Rebuilding"))
+				case "dirty":
+					needs = append(needs, atom("not Rebuilding", "!"+info+".Rebuilding"), atom("Dirty", info+".Dirty"))
+				case "open":
+					needs = append(needs, atom("not Rebuilding", "!"+info+".Rebuilding"), atom("not Dirty", "!"+info+".Dirty"))
+				}
+				c.Guard(rule, fn, rets, "return "+st, nil, needs...)
+			default:
+				c.Bad(rule, FnName(fn)+" | unknown state", c.P.InstrPos(rets[0]), "state "+st+" is not part of the action table", nil)
+			}
+		}
+		if len(by["error"]) == 0 {
+			c.Bad(rule, FnName(fn)+" | unreadable metadata is state error", c.P.Pos(fn.Pos()), "no return of state error: a volume.meta that exists but cannot be read must not be reported as any other state", nil)
+		}
+	}
+	c.Floor(rule, 14)
+}
